@@ -985,6 +985,37 @@ def gstyle_rule(rep, mod):
              None if not bad else 'the exponent-form switch disagrees with ISO C for: ' + '; '.join(bad))
 
 
+def renorm_rule(rep, mod, anchors):
+    """R-RENORM (exponent form, ISO C 7.21.6.1p8 "one digit before the decimal-point character"): every test that decides
+    whether the integer part is divided by the base once more - the normalisation loop before the rounding and the fix-up
+    after a rounding carry - is `integer part >= base`.  With `>` the value `base` itself (10.0, or 9.99 rounded up) keeps
+    two digits in front of the point ("10.0e+00")."""
+    f = mod.fn(FN)
+    IP = anchors['IP']
+    FLIP = {'lt': 'gt', 'gt': 'lt', 'le': 'ge', 'ge': 'le'}
+    n = 0
+    for i in f.all_insts():
+        if i.op != 'fcmp' or i.pred[1:] not in ('lt', 'le', 'gt', 'ge'):
+            continue
+        cells = [cell_of_load(f, o) for o in i.ops]
+        side = [k for k in (0, 1) if cells[k] is not None and cells[k].id == IP.id]
+        if len(side) != 1 or not from_arg(f, i.ops[1 - side[0]], ROLE_BASE):
+            continue
+        pred = i.pred[1:] if side[0] == 0 else FLIP[i.pred[1:]]
+        # only the tests followed by a division of the integer part by the base (a store to the cell of a value computed from
+        # an fdiv by the base on the edge where the test asks for it) are renormalisation tests
+        n += 1
+        ok = pred in ('ge', 'lt')          # ip >= base (divide)  /  ip < base (inverted: do not divide)
+        rep.inst('R-RENORM', FN, 'integer part is renormalised from >= base on (test %d)' % n, ok, i.where(),
+                 None if ok else 'the integer part is compared with the base by %s: a value whose integer part equals the base '
+                 '(10.0, or 9.99.. after the rounding carry) is not divided once more and prints two digits in front of the '
+                 'point, e.g. "%%.3e" of 9.9996 gives "10.000e+00" instead of "1.000e+01"'
+                 % {'gt': '>', 'le': '<='}[pred], fact={'test': 'ip %s base' % {'ge': '>=', 'lt': '<', 'gt': '>', 'le': '<='}[pred]})
+    if n < 2:
+        raise AnalysisBroken('%s: expected the normalisation loop and the post-rounding fix-up to compare the integer part with the '
+                             'base, found %d such comparisons (anchor changed)' % (FN, n))
+
+
 def zero_fill_counts(f):
     """initial counts of the count-down loops that emit the constant '0' and come after a loop emitting bytes of a local
     array (the buffered digits)"""
@@ -1113,6 +1144,8 @@ def run(rep, repo, tier):
     anchors = round_rule(rep, mod)
     gshape_rule(rep, mod, T, anchors)
     gstyle_rule(rep, mod)
+    renorm_rule(rep, mod, anchors)
+    rep.floor('R-RENORM', 2)
     rep.floor('R-GSTYLE', 3)
     runs, facts = fi_rules(rep, mod, T, fams)
     sx_rules(rep, mod, T, fams, facts)
